@@ -182,6 +182,21 @@ Definition legal_scan (n : nat) (ops : list scan_op) : bool :=
   | None => false
   end.
 
+(* In-place scans (output buffer = input buffer) additionally rely on what TBB
+   guarantees about the ORDER of the two passes: an index is pre-scanned (read)
+   only before it is final-scanned (overwritten), and final-scanned once.
+   [pbf done ops]: no pre-scan or final scan touches an index already final-scanned. *)
+Fixpoint pbf (done : list nat) (ops : list scan_op) : bool :=
+  match ops with
+  | [] => true
+  | OPre _ lo hi :: r =>
+      forallb (fun i => negb (existsb (Nat.eqb i) done)) (seq lo (hi - lo)) && pbf done r
+  | OFinal _ lo hi :: r =>
+      forallb (fun i => negb (existsb (Nat.eqb i) done)) (seq lo (hi - lo)) && pbf (seq lo (hi - lo) ++ done) r
+  | _ :: r => pbf done r
+  end.
+Definition legal_scan_inplace (n : nat) (ops : list scan_op) : bool := legal_scan n ops && pbf [] ops.
+
 (* The schedule TBB produces for a [split_tree] when every right child is
    stolen (two-pass: left-most leaf final-scanned at once, every other leaf
    pre-scanned by its own body, sums propagated left to right by reverse_join,
